@@ -401,7 +401,7 @@ func (s *SimKMS) AsymmetricSign(_ context.Context, req *kmspb.AsymmetricSignRequ
 			resp.Signature = append([]byte(nil), sig...)
 			resp.Signature[s.R.Intn(len(sig), "sig-byte")] ^= 1 << s.R.Intn(8, "sig-bit")
 		case 2:
-			resp.SignatureCrc32C = wrapperspb.Int64(crc(sig) ^ (1 << s.R.Intn(32, "crc-bit")))
+			resp.SignatureCrc32C = wrapperspb.Int64(crc(sig) ^ (1 << s.R.Intn(64, "crc-bit")))
 		case 3:
 			resp.VerifiedDataCrc32C = false
 		case 4:
